@@ -226,7 +226,7 @@ static void judge(Ctx &ctx, const SemModel &m, const std::vector<std::string> &l
     auto validator = Validator::create();
     validator->validateModel(model);
     if (validator->issueCount() != 0) {
-        viol("C04", "valid-by-construction-rejected:sem:" + ruleName(validator->issue(0)->referenceRule()), issueSummary(*validator), text);
+        viol("C04", "valid-by-construction-rejected:sem:" + rejectionKey(*validator), issueSummary(*validator), text);
         return;
     }
     judgeModel(ctx, "C03", m, model, text, labels, points, caseTag, jd);
